@@ -230,7 +230,8 @@ func run(seed int64, n int, dir string, _ []string) {
 		rows := make([][]value.Primary, nrows)
 		toks := make([]string, 0, nrows*ncols)
 		for i := range rows {
-			rows[i] = make([]value.Primary, ncols+1)
+			rows[i] = make([]value.Primary, ncols+2)
+			rows[i][ncols+1] = pool[g.Intn(len(pool))] // second payload: values of the key classes, for DISTINCT inside aggregates
 			for j := 0; j < ncols; j++ {
 				rows[i][j] = pool[g.Intn(len(pool))]
 				toks = append(toks, ktok(rows[i][j]))
@@ -244,7 +245,7 @@ func run(seed int64, n int, dir string, _ []string) {
 		for j := range cols {
 			cols[j] = fmt.Sprintf("c%d", j+1)
 		}
-		if err := pr.DeclareTable("t", append(append([]string{}, cols...), "v"), rows); err != nil {
+		if err := pr.DeclareTable("t", append(append([]string{}, cols...), "v", "w"), rows); err != nil {
 			o.Law("declare_table_error", err.Error())
 			continue
 		}
@@ -283,6 +284,41 @@ func run(seed int64, n int, dir string, _ []string) {
 					}
 				}
 				o.Count("aggregate_checks")
+				// the DISTINCT option of an aggregate uses the same buckets as SELECT DISTINCT (whose buckets the
+				// model decides in c04.distinct): COUNT(DISTINCT w) over the group = rows of SELECT DISTINCT w
+				dq, err1 := pr.Query("SELECT COUNT(DISTINCT w) AS cdw FROM t WHERE id IN (" + members + ")")
+				dd, err2 := pr.Query("SELECT DISTINCT w FROM t WHERE w IS NOT NULL AND id IN (" + members + ")")
+				if err1 == nil && err2 == nil {
+					if got, want := hc.StrOf(hc.ViewCell(dq, 0, 0)), strconv.Itoa(dd.RecordLen()); got != want {
+						o.Law("distinct_aggregate_buckets", map[string]interface{}{"strict": strict, "members": members, "count_distinct": got, "select_distinct_rows": want})
+					}
+					o.Count("distinct_aggregate_checks")
+				}
+			}
+			// … and the same inside GROUP BY and as an analytic function over the PARTITION
+			gq, err1 := pr.Query("SELECT MIN(id) AS fid, COUNT(DISTINCT w) AS cdw, LISTAGG(id, ',') AS ids FROM t GROUP BY " + keyList)
+			aq, err2 := pr.Query("SELECT id, COUNT(DISTINCT w) OVER (PARTITION BY " + keyList + ") AS cdw FROM t")
+			if err1 == nil && err2 == nil {
+				byID := map[string]string{}
+				for i := 0; i < aq.RecordLen(); i++ {
+					byID[hc.StrOf(hc.ViewCell(aq, i, 0))] = hc.StrOf(hc.ViewCell(aq, i, 1))
+				}
+				for gi := 0; gi < gq.RecordLen(); gi++ {
+					members := hc.StrOf(hc.ViewCell(gq, gi, 2))
+					cd := hc.StrOf(hc.ViewCell(gq, gi, 1))
+					if gi < 8 {
+						dd, err := pr.Query("SELECT DISTINCT w FROM t WHERE w IS NOT NULL AND id IN (" + members + ")")
+						if err == nil && strconv.Itoa(dd.RecordLen()) != cd {
+							o.Law("distinct_aggregate_buckets", map[string]interface{}{"strict": strict, "where": "GROUP BY", "members": members, "count_distinct": cd, "select_distinct_rows": dd.RecordLen()})
+						}
+					}
+					for _, id := range strings.Split(members, ",") {
+						if byID[id] != cd {
+							o.Law("distinct_aggregate_buckets", map[string]interface{}{"strict": strict, "where": "OVER (PARTITION BY)", "id": id, "analytic": byID[id], "grouped": cd})
+							break
+						}
+					}
+				}
 			}
 		}
 
